@@ -465,6 +465,21 @@ def run(ctx: Ctx) -> int:
         okpad = isinstance(lst, ast.List) and len(lst.elts) == 1 and isinstance(lst.elts[0], ast.Constant) and lst.elts[0].value is None and isinstance(cnt, ast.BinOp) and isinstance(cnt.op, ast.Sub) and ast.unparse(cnt.right).endswith(".defaults)") and ast.unparse(cnt.left).startswith("len(")
     ctx.oblige("C13.d", okpad, pad[0] if pad else fdn, "`defaults` is right-aligned on the positional parameters ([None] * (number of parameters - number of defaults) in front)", fn=fdn)
     okkw = "kwonlyargs" in txt and "kw_defaults" in txt
+    if okkw:
+        # ... appended on the same side of both lists (names and default expressions stay paired)
+        sides = {}
+        for n in ast.walk(fdn):
+            if isinstance(n, ast.BinOp) and isinstance(n.op, ast.Add):
+                for attr in ("kwonlyargs", "kw_defaults"):
+                    if ast.unparse(n.right).endswith("." + attr):
+                        sides[attr] = "right"
+                    elif ast.unparse(n.left).endswith("." + attr):
+                        sides[attr] = "left"
+            if isinstance(n, ast.AugAssign) and isinstance(n.op, ast.Add):
+                for attr in ("kwonlyargs", "kw_defaults"):
+                    if ast.unparse(n.value).endswith("." + attr):
+                        sides[attr] = "right"
+        ctx.oblige("C13.d", sides.get("kwonlyargs") == sides.get("kw_defaults") == "right", fdn, "keyword-only names and their default expressions are appended after the positional ones, both lists alike" if sides.get("kwonlyargs") == sides.get("kw_defaults") == "right" else f"keyword-only names are joined on the {sides.get('kwonlyargs')} and their defaults on the {sides.get('kw_defaults')}: names and default expressions are no longer paired - an instance default is looked up under the wrong parameter", fn=fdn, construct="keyword-only defaults aligned")
     ctx.oblige("C13.d", okkw, fdn, "keyword-only parameters and their defaults (`kwonlyargs` / `kw_defaults`) are part of the lookup" if okkw else "get_default_nodes ignores keyword-only parameters: for `def __init__(self, *, cal: Calendar = Calendar(firstweekday=1), **kwargs): super().__init__(a=5, **kwargs)` the number of default nodes differs from the number of instance defaults, the assertion in replace_param_default_subclass_specs fails, the source-based resolver gives up and the assumption fallback offers the hard-coded `a` - instantiation raises \"got multiple values for keyword argument 'a'\"", fn=fdn, construct="keyword-only defaults")
 
     # =========================================================== C13.e
